@@ -22,7 +22,7 @@ Requests:
 * `impl t:(nameH typ ifn)… | v:(…)` or `| none`   → `<implScan> <newItabOk> <spec>`
 * `find v:(…) | nameH typ` → `<ifn> <matched>`
 * `implspec MSET | T`     → `<implements 0/1>`   (MSET is an `I` term holding the method set)
-* `closure tid tclosure tf0 | vid vclosure vf0` or `| none` → `<matchesClosure>`
+* `closure X tid tclosure tf0 tnamed | vid vclosure vf0 vnamed` or `| none` → `<matchesClosure>` (X = 1: variant with fixes/C07-3.diff)
 * `sha H`                 → base64url(sha256) (self test)
 -/
 open LlgoVerif LlgoVerif.Util LlgoVerif.Types
@@ -236,7 +236,7 @@ def dropMark (l : List String) : List String :=
   | l => l
 
 def parseDesc : List String → Option Face.Desc
-  | [a, b, c] => do pure { id := (← a.toNat?), closure := b == "1", field0 := (← c.toNat?) }
+  | [a, b, c, d] => do pure { id := (← a.toNat?), closure := b == "1", field0 := (← c.toNat?), named := d == "1" }
   | _ => none
 
 def handle (line : String) : String :=
@@ -275,13 +275,13 @@ def handle (line : String) : String :=
     match parseWhole a, parseWhole b with
     | some (.iface ms), some i => bstr (implements ms i)
     | _, _ => "bad-op"
-  | "closure" :: toks =>
+  | "closure" :: fx :: toks =>
     let (a, b) := splitBar toks
     match parseDesc a with
     | some t =>
-      if b = ["none"] then bstr (Face.matchesClosure t none)
+      if b = ["none"] then bstr (Face.matchesClosure (fx == "1") t none)
       else match parseDesc b with
-        | some v => bstr (Face.matchesClosure t (some v))
+        | some v => bstr (Face.matchesClosure (fx == "1") t (some v))
         | none => "bad-op"
     | none => "bad-op"
   | ["sha", h] =>
